@@ -70,7 +70,8 @@ def run(job):
         return
     nums = [0, 1, 293, Decimal(5), Decimal(0), Fraction(1, 3), 0.0, 2.5]
     for x in (2 * METRE, Fraction(1, 3) * u2[1]):
-        for y in (3 * KILOGRAM, 1 * SECOND, 2 * uq[0]):
+        for y in (3 * KILOGRAM, 1 * SECOND, 2 * uq[0], 0 * KILOGRAM,
+                  Decimal(0) * SECOND, Fraction(0) * uq[0]):
             for name, fn in (("add", lambda: x + y), ("sub", lambda: x - y),
                              ("lt", lambda: x < y), ("ge", lambda: x >= y)):
                 try:
@@ -98,3 +99,37 @@ def run(job):
                     job.case(f"{name}/number", (repr(x), repr(k)), False,
                              repr(e), "TypeError")
             job.case("eq/number", (repr(x), repr(k)), (x == k) is False, "", "")
+
+    # the library's sum() over every kind of iterable is the fold of `+`
+    # (exact, left operand's unit) and never yields a value for mixed types
+    import quantity
+    qs = [3 * METRE, Decimal("0.5") * KILOMETRE if False else 4 * METRE,
+          Fraction(1, 3) * METRE, 2 * METRE]
+    from quantity.predefined import KILOMETRE as _KM
+    qs[1] = Decimal("0.5") * _KM
+    for n in range(0, 5):
+        seq = qs[:n]
+        exp = sum((O.refval(q) for q in seq), Fraction(0))
+        for kind, mk in (("list", lambda: list(seq)), ("tuple", lambda: tuple(seq)),
+                         ("generator", lambda: (q for q in seq)),
+                         ("iter", lambda: iter(seq)),
+                         ("map", lambda: map(lambda q: q, seq))):
+            r = quantity.sum(mk())
+            ok = (r == 0 and n == 0) or (n > 0 and type(r) is type(seq[0]) and
+                                         r.unit is seq[0].unit and
+                                         O.refval(r) == exp)
+            job.case("sum/fold", (kind, n), ok, repr(r), repr(exp))
+            if n:
+                r = quantity.sum(mk(), 1 * METRE)
+                job.case("sum/fold-with-start", (kind, n),
+                         O.refval(r) == exp + 1, repr(r), repr(exp + 1))
+    mixed = [1 * METRE, 1 * KILOGRAM, 2 * METRE]
+    for kind, mk in (("list", lambda: list(mixed)),
+                     ("generator", lambda: (q for q in mixed)),
+                     ("iter", lambda: iter(mixed))):
+        try:
+            r = quantity.sum(mk())
+            job.case("sum/other-type", kind, False, repr(r),
+                     "IncompatibleUnitsError")
+        except IncompatibleUnitsError:
+            job.case("sum/other-type", kind, True)
